@@ -163,6 +163,18 @@ def run(ctx):
     if fb is not None and fm is not None:
         c05.header_rule(dep(ctx, "C15", "C05"), fb, fm)
         c05.row_agreement(dep(ctx, "C15", "C05"), fb, fm)
+    # "the thread option never changes results" for `min`: one locked take per record, each line written whole by
+    # one write under the writer lock, the inversion complete after the workers joined
+    from . import c10
+    d10 = dep(ctx, "C15", "C10")
+    fs2, fm2 = ctx.view(c10.S2M), ctx.view(c10.M2S)
+    for fv_ in (fs2, fm2):
+        if fv_ is not None:
+            rule_locked_take(d10, "C10.L", fv_, 1)
+    if fs2 is not None:
+        c10.s2m_rules(d10, fs2)
+    if fm2 is not None:
+        c10.m2s_rules(d10, fm2)
 
 
 # ---------------------------------------------------------------- R
